@@ -158,6 +158,13 @@ impl LoopContext {
     }
 }
 
+/// Converts a position or a count to the width it has in the bytecode.
+/// A program that does not fit the bytecode format is rejected with an error.
+fn operand<T: TryFrom<usize>>(value: usize, what: &str) -> Result<T, Error> {
+    T::try_from(value)
+        .map_err(|_| Error::SyntaxError(format!("het programma is te groot: te veel {what}")))
+}
+
 impl Compiler {
     /// Create a new compiler
     pub fn new() -> Self {
@@ -295,7 +302,7 @@ impl Compiler {
                 }
             }
             Stmt::Let(name, value) => {
-                let symbol = self.symbols.define(name);
+                let symbol = self.define(name)?;
                 self.compile_expression(value)?;
                 let op = if symbol.scope == Scope::Global {
                     OpCode::SetGlobal
@@ -340,7 +347,7 @@ impl Compiler {
                     )),
                 }?;
                 self.emit_opcode(OpCode::Jump);
-                self.emit_u16(pos.try_into().unwrap());
+                self.emit_u16(operand(pos, "instructies")?);
             }
         }
 
@@ -375,7 +382,7 @@ impl Compiler {
         const_value: isize,
         operator: &Operator,
     ) -> Result<(), Error> {
-        let idx_constant = self.add_constant(Object::int(const_value));
+        let idx_constant = self.add_constant(Object::int(const_value))?;
         let symbol = self.symbols.resolve(varname);
         match symbol {
             Some(symbol) => {
@@ -419,18 +426,18 @@ impl Compiler {
             }
             Expr::Float { value } => {
                 let obj = Object::float(*value, &mut self.gc);
-                let idx = self.add_constant(obj);
+                let idx = self.add_constant(obj)?;
                 self.emit_opcode(OpCode::Const);
                 self.emit_u16(idx);
             }
             Expr::Int { value } => {
-                let idx = self.add_constant(Object::int(*value));
+                let idx = self.add_constant(Object::int(*value))?;
                 self.emit_opcode(OpCode::Const);
                 self.emit_u16(idx);
             }
             Expr::String { value } => {
                 let obj = Object::string(value.as_str(), &mut self.gc);
-                let idx = self.add_constant(obj);
+                let idx = self.add_constant(obj)?;
                 self.emit_opcode(OpCode::Const);
                 self.emit_u16(idx);
             }
@@ -573,7 +580,7 @@ impl Compiler {
 
                 self.change_jump_operand_at(
                     pos_jump_if_false,
-                    self.instructions.len().try_into().unwrap(),
+                    operand(self.instructions.len(), "instructies")?,
                 );
 
                 if let Some(alternative) = alternative {
@@ -584,7 +591,7 @@ impl Compiler {
                 }
 
                 // Change operand of last JumpIfFalse opcode to where we're currently at
-                self.change_jump_operand_at(pos_jump, self.instructions.len().try_into().unwrap());
+                self.change_jump_operand_at(pos_jump, operand(self.instructions.len(), "instructies")?);
             }
             Expr::While { condition, body } => {
                 // TODO: Can we get rid of this now that empty block statement emit a NULL?
@@ -603,18 +610,18 @@ impl Compiler {
 
                 // emit jump instruction to loop condition
                 self.emit_opcode(OpCode::Jump);
-                self.emit_u16(pos_before_condition.try_into().unwrap());
+                self.emit_u16(operand(pos_before_condition, "instructies")?);
 
                 // Update jump statement for when initial condition evaluated to false (should skip over entire loop)
                 self.change_jump_operand_at(
                     pos_jump_if_false,
-                    self.instructions.len().try_into().unwrap(),
+                    operand(self.instructions.len(), "instructies")?,
                 );
 
                 // Update jump statements for every break statement inside this loop
                 let ctx = self.loop_contexts.pop().unwrap();
                 for ip in ctx.break_instructions {
-                    self.change_jump_operand_at(ip, self.instructions.len().try_into().unwrap());
+                    self.change_jump_operand_at(ip, operand(self.instructions.len(), "instructies")?);
                 }
             }
             Expr::Function {
@@ -623,7 +630,7 @@ impl Compiler {
                 body,
             } => {
                 let symbol = if !name.is_empty() {
-                    Some(self.symbols.define(name))
+                    Some(self.define(name)?)
                 } else {
                     None
                 };
@@ -635,7 +642,7 @@ impl Compiler {
                 // Compile function in a new scope
                 self.symbols.new_context();
                 for p in parameters {
-                    self.symbols.define(p);
+                    self.define(p)?;
                 }
 
                 let pos_start_function = self.instructions.len();
@@ -653,7 +660,7 @@ impl Compiler {
                     self.emit_opcode(OpCode::Return);
                 }
 
-                self.change_jump_operand_at(pos_jump, self.instructions.len().try_into().unwrap());
+                self.change_jump_operand_at(pos_jump, operand(self.instructions.len(), "instructies")?);
 
                 // Switch back to previous scope again
                 let num_locals = self.symbols.leave_context();
@@ -668,11 +675,11 @@ impl Compiler {
                     }
                 };
                 let obj = Object::function_with_arity(
-                    pos_start_function.try_into().unwrap(),
-                    num_locals.try_into().unwrap(),
+                    operand(pos_start_function, "instructies")?,
+                    operand(num_locals, "variabelen")?,
                     num_params,
                 );
-                let idx = self.add_constant(obj);
+                let idx = self.add_constant(obj)?;
                 self.emit_opcode(OpCode::Const);
                 self.emit_u16(idx);
 
@@ -699,13 +706,13 @@ impl Compiler {
                     if let Some(builtin) = builtins::resolve(name) {
                         self.emit_opcode(OpCode::CallBuiltin);
                         self.emit_u8(builtin as u8);
-                        self.emit_u8(arguments.len().try_into().unwrap());
+                        self.emit_u8(operand(arguments.len(), "argumenten")?);
                         break 'compile_call;
                     }
                 }
                 self.compile_expression(left)?;
                 self.emit_opcode(OpCode::Call);
-                self.emit_u8(arguments.len().try_into().unwrap());
+                self.emit_u8(operand(arguments.len(), "argumenten")?);
             }
 
             Expr::Array { values } => {
@@ -713,7 +720,7 @@ impl Compiler {
                     self.compile_expression(v)?;
                 }
                 self.emit_opcode(OpCode::Array);
-                self.emit_u16(values.len().try_into().unwrap());
+                self.emit_u16(operand(values.len(), "elementen")?);
             }
 
             Expr::Index { left, index } => {
@@ -726,19 +733,27 @@ impl Compiler {
         Ok(())
     }
 
-    fn add_constant(&mut self, obj: Object) -> u16 {
+    /// Declares a name in the current scope
+    fn define(&mut self, name: &str) -> Result<Symbol, Error> {
+        self.symbols
+            .define(name)
+            .ok_or_else(|| Error::SyntaxError("het programma is te groot: te veel variabelen".to_string()))
+    }
+
+    fn add_constant(&mut self, obj: Object) -> Result<u16, Error> {
         // re-use already defined constants
         if let Some(pos) = self
             .constants
             .iter()
             .position(|c| c.tag() == obj.tag() && c == &obj)
         {
-            return pos.try_into().unwrap();
+            return operand(pos, "constanten");
         }
 
+        // (a constant that does not fit stays in the table, so that it is released with the others)
         let idx = self.constants.len();
         self.constants.push(obj);
-        idx.try_into().unwrap()
+        operand(idx, "constanten")
     }
 }
 
